@@ -93,6 +93,8 @@ static long pct_cp[16];
 static char *replay_str;
 static char *replay_pos;
 static int cas_permille, cv_permille, fx_permille;   /* fx: spurious futex return (EINTR) */
+static int fx_left;           /* interruptions still allowed in this run (signals are finite: a schedule in
+                               * which a sleeper is interrupted for ever is not a lost wake-up) */
 static long max_steps = 20000, steps, forced_spin, last_steps = 300;
 static int status, finished, starting;
 
@@ -302,11 +304,11 @@ static void pick_next(void)
 			if (nc) { n = c[rnd() % nc]; flag = 2; }
 		}
 		/* spurious return of a futex wait (signal without SA_RESTART: -1/EINTR, value unchanged) */
-		if (!n && fx_permille > 0 && (int)(rnd() % 1000) < fx_permille) {
+		if (!n && fx_permille > 0 && fx_left > 0 && (int)(rnd() % 1000) < fx_permille) {
 			T *c[MAXT]; int nc = 0;
 			for (int i = 0; i < nthreads; i++)
 				if (threads[i]->wait_kind == W_FUTEX && !killed(threads[i])) c[nc++] = threads[i];
-			if (nc) { n = c[rnd() % nc]; flag = 2; }
+			if (nc) { n = c[rnd() % nc]; flag = 2; fx_left--; }
 		}
 		if (!n) {
 			T **set = nn ? ns : en;
@@ -476,7 +478,7 @@ void vs_policy_prefix(const char *schedule)
 }
 void vs_trace_enabled(int on) { trace_enabled = on; }
 void vs_set_spurious(int c, int v) { cas_permille = c; cv_permille = v; }
-void vs_set_spurious_futex(int f) { fx_permille = f; }
+void vs_set_spurious_futex(int f) { fx_permille = f; fx_left = 8; }
 void vs_set_max_steps(long n) { max_steps = n; }
 void vs_kill_after(int tid, long k) { if (tid >= 0 && tid < nthreads) threads[tid]->kill_after = k; }
 
